@@ -218,6 +218,27 @@ SEEDS = {
    "a GTID event whose sequence number is >= 2^32"),
  "C20-marshal-pooled-buffer": ("C20", "Transaction.MarshalJSON encodes into a sync.Pool buffer and returns a slice into it",
    "MarshalJSON called directly, the result kept, and another transaction marshalled before it is consumed"),
+ # ---- round f (focused on C04-C08: interleavings, multi-step sequences, cooperating sites) ----
+ "C04-store-only-if-position-after": ("C04", "Stream stores the returned position only if Position.after() (file name compared as a string, then the offset)",
+   "an attempt that crosses a rotation to a file name that sorts lower and accepts transactions there; then another attempt"),
+ "C04-commit-error-shadowed": ("C04", "commit closure leaves the handler error in a function-level err that the query / rows branches shadow",
+   "a handler error on a transaction closed by a QUERY event (DDL, COMMIT query, autocommitted rows), followed by an accepted transaction"),
+ "C05-done-signalled-not-closed": ("C05", "close(): non-blocking send on the unbuffered done channel instead of close(done)",
+   "parser stops by itself while the reader is between ReadPacket and its hand-off select and still obtains a packet: the signal is lost, the reader parks forever"),
+ "C05-done-nonblocking-send-no-once": ("C05", "close(): sync.Once + close(done) replaced by a non-blocking send on done",
+   "close() runs while the reader is running (inside a ReadPacket that still returns a packet, or between the read and the hand-off select)"),
+ "C05-waitgroup-add-before-failed-dump": ("C05", "close() waits on a WaitGroup whose Add(1) happens before the dump request and whose Done() only in the reader goroutine",
+   "the dump request fails: nothing ever calls Done(), Stream's deferred close() blocks forever"),
+ "C06-parse-error-dropped-if-cause-published": ("C06", "Stream returns nil for a parser error when len(conn.errChan) != 0",
+   "the failing transaction is the last one before the dump ends and the reader publishes its exit cause while the handler is still running"),
+ "C06-sticky-canceled-flag": ("C06", "a Streamer-level `canceled` flag set in parseEvents on ctx.Done and never reset; Error() returns nil when it is set",
+   "attempt N cancelled by the caller, attempt N+1 on a fresh context ends by a master ERR / lost connection"),
+ "C07-pos-from-handler-owned-transaction": ("C07", "commit closure advances with pos = tran.NextPosition read back from the delivered *Transaction",
+   "a handler that edits tran.NextPosition before returning, then a second Stream call: the dump request carries the altered position"),
+ "C08-recycled-event-buffer-autocommit-rows": ("C08", "a one-slot free list of event buffers: commit() recycles the commit event's buffer, readBinlogEvent refills it",
+   "an autocommitted rows event (the rows event itself is the commit event) whose values the handler keeps, followed by a packet that fits the recycled buffer"),
+ "C08-zero-copy-sql-alternating-buffers": ("C08", "Query(): SQL as a zero-copy unsafe string; readBinlogEvent: QUERY/XID/GTID events in two alternating per-connection buffers",
+   "a kept transaction with a statement event, then two more QUERY/GTID events: the SQL text changes after delivery"),
 }
 
 def parse_detect(path):
